@@ -12,6 +12,14 @@
    recorded and validated by spec/trace/ShiftTrace.tla (property layer evaluated on the observed values).
 4. binding self-tests: corrupted records / perturbed expectations must be flagged.
 
+Every experiment and replay is also a draw from the ways a caller may hold and hand over the same arguments (make_var, _store,
+replay_roll_case, _model_waveforms): data read-only / strided / Fortran-ordered / a window of a larger buffer, one array object
+refilled between calls, the axis positional / defaulted / negative, `s=` and `ns=` keywords, the frequency-domain form
+(rfft in, ns given), shifts as Python / NumPy integer and float32 scalars, zero-dimensional, integer-dtype, read-only or strided
+vectors in flat / row / column layout, 2-D arrays with a single trace or with more traces than samples, lengths drawn from the
+whole of 2..2048, a signal with a mean; waveforms in volts / microvolts / unit amplitude, float32 and float64, the same array
+passed twice, clusters of one trace or of a handful of spikes.  The judgement is the property layer's in every case.
+
 Decided by projection on the real output, NOT by TLC: that an output is "an impulse at j" (max error 1e-5 for
 float32, 1e-10 for float64), "a pure delay by m/D" (relative residual against the analytically delayed
 sub-Nyquist signal, same thresholds), the 0.05-sample accuracy of the delay estimate and the re-alignment
@@ -669,8 +677,10 @@ def run(ctx):
     selftest(ctx, shuffled, {v["index"] for v in verdicts}, cases)
     ctx.cov["rule"] = ("model: every (n, D, basis vector, one or two shifts in (-n,n)) of the box, 1-D and 2-D/both axes; "
                        "replay: every TLC-exported (shape, axis, shift vector) token map x dtype; traces: one experiment = "
-                       "(n, layout, dtype, call sequence) with the full impulse basis and a sub-Nyquist multi-sine; "
-                       "estimator: model waveform x shift -3..3 step 0.1")
+                       "(n, layout incl. single-trace and many-trace 2-D, dtype, call sequence, argument variant: storage of the "
+                       "data / call form incl. frequency-domain / kind of the shift argument) with the full impulse basis and a "
+                       "sub-Nyquist multi-sine with or without a mean; estimator: model waveform (units, dtype, storage) x shift "
+                       "-3..3 step 0.1, clusters incl. one trace / few spikes")
     ctx.cov["exhaustive"] = True
     ctx.cov["numeric_postconditions"] = ("impulse / pure-delay classification (1e-5 f32, 1e-10 f64), delay estimate "
                                          "within 0.05 sample, re-alignment residual <= 5 %: measured on the real output, "
